@@ -35,6 +35,7 @@ def apply_options(opts):
         o.lsb0 = opts['lsb0']
     o.bytealigned = opts['bytealigned']
     o.mxfp_overflow = opts['mxfp_overflow']
+    o.no_color = False       # same as the warm side (engine.reset_options); the environment's NO_COLOR must not leak into the comparison
 
 
 def current_options():
@@ -223,8 +224,15 @@ _SIDE = None
 _MEMO = {}
 
 
+_SIDE_PID = None
+
+
 def sidecar():
-    global _SIDE
+    global _SIDE, _SIDE_PID
+    if _SIDE_PID != os.getpid():
+        # a forked worker must not talk to its parent's sidecar
+        _SIDE, _SIDE_PID = None, os.getpid()
+        _MEMO.clear()
     if _SIDE is None or _SIDE.poll() is not None:
         env = dict(os.environ)
         env['PYTHONPATH'] = f'{REPO}:{HERE}'
